@@ -362,9 +362,9 @@ Result: state, the value of the local `outdir`, and whether the function returns
 def copyPrepare (cfg : Cfg) (src : Src) (toFile : Str) (mk : Option Str) (s : St) : St × Str × Bool :=
   let outdir0 := dirname toFile
   let kt := keyOf cfg.cwd toFile
-  if existsF s kt then
-    if !isFileF s kt then (s.fail .meson, outdir0, true)
-    else if shouldPreserve cfg src s kt then
+  if lexists s kt then
+    if !isFileF s kt && !isLink s kt then (s.fail .meson, outdir0, true)
+    else if isFileF s kt && shouldPreserve cfg src s kt then
       (({ s with preserved := s.preserved + 1 }).logLine (preservingPrefix ++ toFile), outdir0, true)
     else (remove cfg kt s, outdir0, false)
   else match mk with
@@ -377,8 +377,8 @@ def copyPayload (cfg : Cfg) (fromPath : Str) (src : Src) (toFile outdir : Str) (
   let kt := keyOf cfg.cwd toFile
   match src with
   | .linkDangling t =>
-    let kd := keyOf cfg.cwd outdir
-    let dst := if isDirF s1 kd then keyOf cfg.cwd (join outdir (basename fromPath)) else kd
+    -- `shutil.copy(from_file, to_file, follow_symlinks=False)`: a directory destination would receive the basename
+    let dst := if isDirF s1 kt then keyOf cfg.cwd (join toFile (basename fromPath)) else kt
     putLink cfg dst t s1
   | .linkFile t m d mt => if follow.getD true then putFile cfg kt m d mt s1 else putLink cfg kt t s1
   | .linkDir t =>
@@ -440,7 +440,7 @@ def copydirFileStep (cfg : Cfg) (srcRoot dstDir : Str) (exclF : List Str) (rel :
   if exclF.contains fp then s else
   let absDst := join dstDir fp
   let kd := keyOf cfg.cwd absDst
-  if isDirF s kd then s.fail .exit else
+  if isDirF s kd && !isLink s kd then s.fail .exit else
   let parent := dirname absDst
   let kp := keyOf cfg.cwd parent
   let s1 :=
@@ -473,30 +473,49 @@ def doCopydir (cfg : Cfg) (srcDir dstDir : Str) (exclude : Option (List Str × L
 
 /-! ### the `install_*` methods -/
 
+/-- `PurePath(os.path.normpath(p)).parts` -/
+def normParts (p : Str) : List Str := pureParts (normpath p)
+
+/-- the staging check of `get_destdir_path`: with DESTDIR set, the normalised result must lie in DESTDIR -/
+def destOk (destdir output : Str) : Bool :=
+  destdir = [] || (normParts destdir).isPrefixOf (normParts output)
+
+/-- `get_destdir_path` with its `MesonException` (`none`) -/
+def destPath (cfg : Cfg) (path : Str) : Option Str :=
+  let out := getDestdirPath cfg.destdir cfg.fullprefix path
+  if destOk cfg.destdir out then some out else none
+
 def installSubdir (cfg : Cfg) (s : St) (e : SubdirEntry) : St :=
   if s.failed then s else
   if !shouldInstall cfg e.subproject e.tag then s else
   let s0 := { s with didInstall := true }
-  let fullDst := getDestdirPath cfg.destdir cfg.fullprefix e.installPath
-  let s1 := dmMakedirs cfg fullDst true s0
-  doCopydir cfg e.path fullDst e.exclude e.mode e.follow e.walk s1
+  match destPath cfg e.installPath with
+  | none => s0.fail .meson
+  | some fullDst =>
+    let s1 := dmMakedirs cfg fullDst true s0
+    doCopydir cfg e.path fullDst e.exclude e.mode e.follow e.walk s1
 
 def installTarget (cfg : Cfg) (s : St) (t : TargetEntry) : St :=
   if s.failed then s else
   if !shouldInstall cfg t.subproject t.tag then s else
-  let outdir := getDestdirPath cfg.destdir cfg.fullprefix t.outdir
   match t.src with
   | .missing | .linkDangling _ => if t.optional then s else s.fail .meson
   | .file .. | .linkFile .. =>
-    let outname := join outdir (basename t.fname)
-    let r := doCopyfile cfg t.fname t.src outname (some outdir) none s
-    if r.1.failed then r.1 else
-    if r.2 then setMode cfg (keyOf cfg.cwd outname) t.mode { r.1 with didInstall := true } else r.1
+    match destPath cfg t.outdir with
+    | none => s.fail .meson
+    | some outdir =>
+      let outname := join outdir (basename t.fname)
+      let r := doCopyfile cfg t.fname t.src outname (some outdir) none s
+      if r.1.failed then r.1 else
+      if r.2 then setMode cfg (keyOf cfg.cwd outname) t.mode { r.1 with didInstall := true } else r.1
   | .dir | .linkDir _ =>
-    let fname := join cfg.buildDir (rstripSlash t.fname)
-    let outname := join outdir (basename fname)
-    let s1 := dmMakedirs cfg outdir true s
-    doCopydir cfg fname outname none t.mode none t.walk s1
+    match destPath cfg t.outdir with
+    | none => s.fail .meson
+    | some outdir =>
+      let fname := join cfg.buildDir (rstripSlash t.fname)
+      let outname := join outdir (basename fname)
+      let s1 := dmMakedirs cfg outdir true s
+      doCopydir cfg fname outname none t.mode none t.walk s1
 
 /-- body shared by `install_headers` / `install_man` / `install_data` once `outfilename` and `outdir` are known -/
 def installFileTo (cfg : Cfg) (e : DataEntry) (outfilename outdir : Str) (follow : Option Bool) (s : St) : St :=
@@ -508,40 +527,46 @@ def installFileTo (cfg : Cfg) (e : DataEntry) (outfilename outdir : Str) (follow
 def installHeader (cfg : Cfg) (s : St) (e : DataEntry) : St :=
   if s.failed then s else
   if !shouldInstall cfg e.subproject e.tag then s else
-  let outdir := getDestdirPath cfg.destdir cfg.fullprefix e.installPath
-  installFileTo cfg e (join outdir (basename e.path)) outdir e.follow s
+  match destPath cfg e.installPath with
+  | none => s.fail .meson
+  | some outdir => installFileTo cfg e (join outdir (basename e.path)) outdir e.follow s
 
 def installMan (cfg : Cfg) (s : St) (e : DataEntry) : St :=
   if s.failed then s else
   if !shouldInstall cfg e.subproject e.tag then s else
-  let out := getDestdirPath cfg.destdir cfg.fullprefix e.installPath
-  installFileTo cfg e out (dirname out) none s
+  match destPath cfg e.installPath with
+  | none => s.fail .meson
+  | some out => installFileTo cfg e out (dirname out) none s
 
 def installDataOne (cfg : Cfg) (s : St) (e : DataEntry) : St :=
   if s.failed then s else
   if !shouldInstall cfg e.subproject e.tag then s else
-  let out := getDestdirPath cfg.destdir cfg.fullprefix e.installPath
-  installFileTo cfg e out (dirname out) e.follow s
+  match destPath cfg e.installPath with
+  | none => s.fail .meson
+  | some out => installFileTo cfg e out (dirname out) e.follow s
 
 def installEmptydir (cfg : Cfg) (s : St) (e : EmptyDirEntry) : St :=
   if s.failed then s else
   if !shouldInstall cfg e.subproject e.tag then s else
   let s0 := { s with didInstall := true }
-  let full := getDestdirPath cfg.destdir cfg.fullprefix e.path
-  let k := keyOf cfg.cwd full
-  if isFileF s0 k then s0.fail .exit else
-  let s1 := dmMakedirs cfg full true s0
-  if s1.failed then s1 else setMode cfg k e.mode s1
+  match destPath cfg e.path with
+  | none => s0.fail .meson
+  | some full =>
+    let k := keyOf cfg.cwd full
+    if isFileF s0 k then s0.fail .exit else
+    let s1 := dmMakedirs cfg full true s0
+    if s1.failed then s1 else setMode cfg k e.mode s1
 
 def installSymlink (cfg : Cfg) (s : St) (e : SymlinkEntry) : St :=
   if s.failed then s else
   if !shouldInstall cfg e.subproject e.tag then s else
-  let fullDst := getDestdirPath cfg.destdir cfg.fullprefix e.installPath
-  let fullLink := getDestdirPath cfg.destdir cfg.fullprefix e.name
-  let s1 := dmMakedirs cfg fullDst true s
-  if s1.failed then s1 else
-  let r := doSymlink cfg e.target fullLink s1
-  if r.2 then { r.1 with didInstall := true } else r.1
+  match destPath cfg e.installPath, destPath cfg e.name with
+  | some fullDst, some fullLink =>
+    let s1 := dmMakedirs cfg fullDst true s
+    if s1.failed then s1 else
+    let r := doSymlink cfg e.target fullLink s1
+    if r.2 then { r.1 with didInstall := true } else r.1
+  | _, _ => s.fail .meson
 
 def logHeader : List Str :=
   ["# List of files installed by Meson".toList, "# Does not contain files installed by custom scripts.".toList]
